@@ -142,7 +142,7 @@ PROPERTIES = {
                 overlay={"internal/openapiv3/zz_verif_c06.go": "harness/c06/c06_schema.go", "internal/openapiv3/zz_verif_c06w.go": "harness/c06/c06_wire.go",
                          "internal/openapiv3/zz_verif_c18.go": "harness/c18/c18_document.go"},
                 harnesses=[dict(func="VerifC06Field", reach=["C06/field/decided", "C06/field/kf-nonfinite"], quick=dict(budget=300, parts=4), thorough=dict(budget=900, parts=8)),
-                           dict(func="VerifC06Flatten", reach=["C06/flatten/decided"], quick=dict(budget=120), thorough=dict(budget=400)),
+                           dict(func="VerifC06Flatten", reach=["C06/flatten/decided", "C06/flatten/child-member-with-cardinality"], quick=dict(budget=120), thorough=dict(budget=400)),
                            dict(func="VerifC06Oneof", reach=["C06/oneof/decided", "C06/oneof/kf-unset", "C06/oneof/kf-nested"], quick=dict(budget=200), thorough=dict(budget=600)),
                            dict(func="VerifC06Unwrap", reach=["C06/unwrap/decided"], quick=dict(budget=200, parts=2), thorough=dict(budget=600, parts=4)),
                            dict(func="VerifC06Builtin", reach=["C06/builtin/decided"], quick=dict(budget=60), thorough=dict(budget=120)),
